@@ -25,7 +25,7 @@ func VerifC02Step() {
 	_ = parsed
 	vStats("new")
 
-	pre := verifSublist(names)
+	pre := verifPre(names)
 	vAssume(verifConsistent(schema, pre))
 	vAssume(verifReachable(raw, pre))
 	verifInject(m, pre, func(int) uint64 { return 0 })
@@ -35,7 +35,7 @@ func VerifC02Step() {
 	if mt < 0 {
 		mt = vInt(0, 2)
 	}
-	called := verifSublist(names)
+	called := verifCalled(names)
 	vAssume(len(called) > 0)
 	var res Result
 	switch mt {
@@ -110,6 +110,34 @@ func VerifC02Step() {
 			}
 		}
 	}
+	// known finding: the Add closure is only expanded two levels deep (one level per parseAdd pass)
+	deep := false
+	if !addOK {
+		// distance of every state from the called set along Add relations
+		dist := map[string]int{}
+		for _, c := range called {
+			dist[c] = 0
+		}
+		for round := 0; round < len(names); round++ {
+			for _, s := range names {
+				d, ok := dist[s]
+				if !ok {
+					continue
+				}
+				for _, a := range schema[s].Add {
+					if old, ok := dist[a]; !ok || old > d+1 {
+						dist[a] = d + 1
+					}
+				}
+			}
+		}
+		for _, s := range names {
+			if d, ok := dist[s]; ok && d >= 3 && !verifHas(post, s) {
+				deep = true
+			}
+		}
+	}
+	vKnown("c02-add-chain-beyond-two-levels", deep)
 	vAssert("add-honoured", addOK)
 
 	// (iv) justification
